@@ -68,12 +68,13 @@ package flags
 //@   ensures !hasPrefix(optname, "-") ==> prefix == "" && name == optname && !islong
 //@   ensures prefix + name == optname
 
+// (C01: the value text of an occurrence written with '=' is exactly what follows the '=' - the empty text included)
 //@ func splitOption(prefix string, option string, islong bool) (name string, split string, arg *string)
-//@   props C02 C04 C07
+//@   props C02 C04 C07 C01
 //@   let c, n := utf8.DecodeRuneInString(option)
 //@   ensures islong ==> ((arg != nil) == contains(option, "="))
-//@   ensures[C02] !islong ==> ((arg != nil) == (0 < n && n < len(option) && option[n] == '='))
-//@   ensures[C02] !islong && arg != nil ==> len(name) == n
+//@   ensures[C02,C01] !islong ==> ((arg != nil) == (0 < n && n < len(option) && option[n] == '='))
+//@   ensures[C02,C01] !islong && arg != nil ==> len(name) == n
 //@   ensures arg != nil ==> split == "=" && len(option) == len(name) + 1 + len(*arg)
 //@   ensures arg != nil ==> name == option[:len(name)]
 //@   ensures arg != nil ==> option[len(name)] == '='
@@ -1596,6 +1597,35 @@ package flags
 // eachActiveGroup visits, for every command of the active chain, every group
 // that eachGroup visits for it (eagIndex names the position); the chain does
 // not come back to the root.
+// The bodies of the iterators (what their ghost sequences hold stays trusted, see the assumptions): each is
+// checked against the shape of the walk it documents - the receiver's own items go to the callback with the
+// right arguments, one call each, and the walk continues into the active subcommand.
+//@ assumed func Command.eachActiveGroup.f(cc *Command, g *Group)
+//@ func (c *Command) eachActiveGroup(f func(cc *Command, g *Group))
+//@   props C17 C16 C04
+//@   requires c != nil && !isnil(f)
+//@   loop 1 invariant[C17,C16] ticks(own) == idx_1
+//@   at[C17,C16] call Command.eachActiveGroup.f #1: arg(0) == c && arg(1) == iterelem(Group.eachGroup, c.Group, idx_1, 0) && tick(own)
+//@   at[C17,C16] call Command.eachActiveGroup #1: recv() == c.Active && c.Active != nil && arg(0) == f && tick(rec)
+//@   ensures[C17,C16] ticks(own) == iterlen(Group.eachGroup, c.Group)
+//@   ensures[C17,C16] c.Active != nil ==> ticks(rec) == 1
+//@ assumed func Group.eachGroup.f(g *Group)
+//@ func (g *Group) eachGroup(f func(*Group))
+//@   props C16 C17 C13 C04
+//@   requires g != nil && !isnil(f)
+//@   loop 1 invariant ticks(rec) == idx_1 && ticks(own) == 1
+//@   at call Group.eachGroup.f #1: arg(0) == g && tick(own)
+//@   at call Group.eachGroup #1: recv() == g.groups[idx_1] && arg(0) == f && tick(rec)
+//@   ensures ticks(own) == 1 && ticks(rec) == len(g.groups)
+//@ assumed func Command.eachCommand.f(c *Command)
+//@ func (c *Command) eachCommand(f func(*Command), recurse bool)
+//@   props C16 C19 C04
+//@   requires c != nil && !isnil(f)
+//@   loop 1 invariant ticks(rec) + ticks(sub) == idx_1 && ticks(own) == 1 && (recurse ==> ticks(sub) == 0) && (!recurse ==> ticks(rec) == 0)
+//@   at call Command.eachCommand.f #1: arg(0) == c && tick(own)
+//@   at call Command.eachCommand #1: recv() == c.commands[idx_1] && arg(0) == f && arg(1) && tick(rec)
+//@   at call Command.eachCommand.f #2: arg(0) == c.commands[idx_1] && tick(sub)
+//@   ensures ticks(own) == 1 && ticks(rec) + ticks(sub) == len(c.commands)
 //@ axiom manual eg_nonempty: forall g *Group :: g != nil ==> iterlen(Group.eachGroup, g) >= 1
 //@ assumed func eagIndex(root *Command, k int, j int) (r int)
 //@   pure
@@ -1739,6 +1769,9 @@ package flags
 //@   nomerge
 //@   props C18 C15 C04
 //@   requires c != nil && c.parser != nil && c.parser.Command != nil
+// (a typed word consumes the HEAD of the pending positionals unless that head is a rest positional - the
+// rule addArgs applies when parsing)
+//@   at[C18] call Arg.isRemaining #1: len(s.positional) > 0 && recv() == s.positional[0]
 //@   loop 1 invariant s != nil && s.command != nil && len(s.args) >= 1
 //@   loop 1 decreases len(s.args)
 //@   loop 2 invariant canarg && (idx_2 > 0 ==> o != nil && idx_2 >= utf8w(optname) && !(shortOpt(s, optname, 0) != nil && shortOpt(s, optname, 0).canArgument() && utf8w(optname) < len(optname)))
@@ -1916,7 +1949,11 @@ package flags
 
 //@ assumed func (x *multiTag) GetMany(key string) (r []string)
 //@   pure
+// (trusted: whether a tag text scans is a function of the text - multiTag.scan, which is verified, is what Parse runs)
+//@ assumed func tagErr(v string) (e error)
+//@   pure
 //@ assumed func (x *multiTag) Parse() (err error)
+//@   ensures err == tagErr(x.value)
 //@ assumed func reflect.Type.NumField(t reflect.Type) (n int)
 //@   pure
 //@   ensures n >= 0
@@ -1978,11 +2015,11 @@ package flags
 // C19: the handler that turns tagged struct fields into positional arguments
 // and subcommands (the function literal built by scanSubcommandHandler).
 //@ assumed func (c *Command) AddCommand(command string, shortDescription string, longDescription string, data interface{}) (r *Command, err error)
-//@   ensures err == nil ==> r != nil
+//@   ensures err == nil ==> r != nil && r != c && r.Group != nil && r.Group != c.Group
 //@   assigns Command.commands
 //@ assumed func (g *Group) scanSubGroupHandler(realval reflect.Value, sfield *reflect.StructField) (ok bool, err error)
 //@ func (c *Command) scanSubcommandHandler_closure1(parentg *Group, realval reflect.Value, sfield *reflect.StructField) (ok bool, err error)
-//@   props C19 C04 C06 C10
+//@   props C19 C04 C06 C10 C08
 //@   requires c != nil && parentg != nil && sfield != nil
 //@   loop 1 invariant[C10] forall(J, 0, len(old(c.args)), c.args[J] == old(c.args)[J])
 //@   requires forall(J, 0, len(c.args), allocated(c.args[J]))
@@ -1994,7 +2031,17 @@ package flags
 //@   ensures[C10] forall(J, 0, len(old(c.args)), c.args[J] == old(c.args)[J])
 //@   loop 1 invariant 0 <= i && (old(c.ArgsRequired) ==> c.ArgsRequired) && (i > 0 && len(mtag.Get("required")) != 0 ==> c.ArgsRequired) && len(c.args) == len(old(c.args)) + i
 //@   loop 1 decreases stype.NumField() - i
+// (attributes are only ever read from a tag that was scanned without error - the field's own tag, not just the enclosing one)
+//@   at[C19] call multiTag.Get "positional-arg-name": tagErr(m.value) == nil && tagErr(mtag.value) == nil
 //@   at[C19] call append #1: arg != nil && arg.Name == ite(len(m.Get("positional-arg-name")) == 0, field.Name, m.Get("positional-arg-name")) && arg.Description == m.Get("description") && arg.value == realval.Field(i)
 //@   at[C19] call append #1: (m.Get("required") == "" ==> arg.Required == -1 && arg.RequiredMaximum == -1)
+// (a command:"..." field: the new command gets the tag's name and descriptions; whatever else the tag says
+// - hidden, subcommands-optional, aliases - lands on the NEW command: the attributes of the command being
+// scanned never change)
+//@   at[C19,C08] call Command.AddCommand #1: arg(0) == mtag.Get("command") && arg(1) == mtag.Get("description") && arg(2) == mtag.Get("long-description") && len(mtag.Get("command")) != 0 && len(mtag.Get("positional-args")) == 0
+//@   ensures[C19,C08] c.SubcommandsOptional == old(c.SubcommandsOptional)
+//@   ensures[C19,C08] c.Hidden == old(c.Hidden)
+//@   ensures[C19,C08] same(c.Aliases, old(c.Aliases))
+//@   ensures[C19,C08] c.Name == old(c.Name)
 //@   ensures[C19] old(c.ArgsRequired) ==> c.ArgsRequired
 //@   ensures[C19] len(c.args) >= len(old(c.args))
